@@ -1,7 +1,8 @@
 (* C17 — any command line is either accepted as documented or rejected cleanly.
    Statements only; proofs live in proofs/BindProofs.v and proofs/OptionProofs.v. *)
 From Coq Require Import String.
-From Fzf Require Import Prelude Val BindSpec BindModel BindProofs BindRoundtrip OptionSpec OptionModel OptionProofs.
+From Fzf Require Import Prelude Val RuneSpec BindSpec BindModel BindProofs BindRoundtrip OptionSpec OptionModel OptionProofs.
+From Fzf Require Import RuneProofs ColorSpec ColorModel ColorProofs.
 Open Scope Z_scope.
 
 (* maskActionContents never fails and keeps the length: parseKeymap / parseActionList slice the
@@ -147,4 +148,100 @@ Example c17_roundtrip_nonvacuous :
     [(KCtrl 0, [(b "execute", b ";;x:+"); (b "toggle", []); (b "down", []); (b "change-prompt", b "a)b)c,x")]);
      (KF 2, [(b "execute", b ";;x:+"); (b "toggle", []); (b "down", []); (b "change-prompt", b "a)b)c,x")]);
      (KNamed (b "start"), [(b "preview-top", []); (b "reload", b "ls +a,b:up(x)")])].
+Proof. cbn zeta. repeat split; vm_compute; reflexivity. Qed.
+
+(* ------------------------------------------------------------------ key names outside ASCII *)
+
+(* "CHAR" in a key name is a character of the UTF-8 spelling, not a byte: decoding the spelling of any
+   Unicode character gives that character back ... *)
+Theorem utf8_roundtrip : forall c, scalar c = true -> utf8_runes (utf8_encode c) = [c].
+Proof. exact utf8_roundtrip_proof. Qed.
+Print Assumptions utf8_roundtrip.
+
+(* ... so alt-CHAR (prefix in any letter case) names ALT + CHAR and CHAR names CHAR, for EVERY character
+   outside ASCII (distinct characters give distinct keys; bind_roundtrip above then covers such names,
+   since key_spelling_ok only asks key_of_token for an answer). *)
+Theorem alt_char_key : forall p c, to_lower p = s_alt -> 128 <= c -> scalar c = true ->
+  key_of_token (p ++ utf8_encode c) = Some (KAlt c).
+Proof. exact alt_char_key_proof. Qed.
+Print Assumptions alt_char_key.
+
+Theorem char_key : forall c, 128 <= c -> scalar c = true -> key_of_token (utf8_encode c) = Some (KRune c).
+Proof. exact char_key_proof. Qed.
+Print Assumptions char_key.
+
+(* non-vacuity: alt-é / é / alt-è are three different keys, as key names, as --bind keys and in a key list *)
+Example c17_unicode_keys_nonvacuous :
+  let e_acute := [195; 169] in let e_grave := [195; 168] in
+  utf8_encode 233 = e_acute /\ scalar 233 = true /\
+  key_of_token (b "alt-" ++ e_acute) = Some (KAlt 233) /\ key_of_token (b "ALT-" ++ e_grave) = Some (KAlt 232) /\
+  key_of_token e_acute = Some (KRune 233) /\
+  wf_bind [([b "alt-" ++ e_acute; e_grave], [ASimple (b "up")])] = true /\
+  parse_keymap [] (b "alt-" ++ e_acute ++ b "," ++ e_grave ++ b ":up") =
+    Ok (Good [(KAlt 233, [(b "up", [])]); (KRune 232, [(b "up", [])])]) /\
+  parse_key_chords (b "alt-" ++ e_acute ++ b ",alt-" ++ e_grave ++ b ",ALT-" ++ e_acute) = Good [KAlt 233; KAlt 232].
+Proof. cbn zeta. repeat split; vm_compute; reflexivity. Qed.
+
+(* ------------------------------------------------------------------ --color *)
+
+(* parseTheme ends with a theme or a user error for EVERY byte string (the built-in themes being there) *)
+Theorem color_total : forall bases t s, (5 <= length bases)%nat -> exists o, parse_theme bases t s = Ok o.
+Proof. exact color_total_proof. Qed.
+Print Assumptions color_total.
+
+(* Writing down any list of entries (words free of ',' and ':', any letter case, every documented spelling of
+   names, colours and attributes) and parsing the string gives exactly the documented meaning of the entries:
+   entries are applied left to right, a colour replaces the colour, an attribute is added, `regular` clears the
+   attributes set before, a base scheme replaces the whole theme — and a user error exactly when the
+   documentation gives no meaning. *)
+Theorem color_roundtrip : forall bases t es, (5 <= length bases)%nat -> entries_ok es = true ->
+  parse_theme bases t (render_entries es) =
+  match entries_denote bases t es with Some t' => Ok (Good t') | None => Ok (Bad E_COLOR) end.
+Proof. exact color_refines_proof. Qed.
+Print Assumptions color_roundtrip.
+
+(* `regular` clears previously set attributes: the attributes of a name after an entry that contains `regular`
+   are decided by what follows that `regular`, whatever the name had before (from an earlier entry, an earlier
+   --color, the options file or $FZF_DEFAULT_OPTS) and whatever precedes it in the entry *)
+Theorem regular_clears : forall ca ca' pre pre' post,
+  snd (apply_comps ca (pre ++ CRegular :: post)) = snd (apply_comps ca' (pre' ++ CRegular :: post)).
+Proof. exact regular_clears_proof. Qed.
+Print Assumptions regular_clears.
+
+(* Later occurrences override earlier ones: when the last entry for a name begins with `regular` and gives a
+   colour, the name ends up exactly as that entry alone says, whatever came before it. *)
+Theorem color_last_wins : forall bases t xs n ws s cs zs t',
+  assoc_str (to_lower n) slot_names = Some s ->
+  ws <> [] -> comps_of (map to_lower ws) = Some cs -> complete cs = true ->
+  Forall (leaves s) zs ->
+  entries_denote bases t (xs ++ (n :: ws) :: zs) = Some t' ->
+  theme_get t' s = apply_comps (C_UNDEFINED, A_NONE) cs.
+Proof. exact color_last_wins_proof. Qed.
+Print Assumptions color_last_wins.
+
+(* Layering: one --color whose value is s1,s2 equals --color s1 followed (in the same or in a later layer:
+   options file, $FZF_DEFAULT_OPTS, command line) by --color s2 — for ALL byte strings. *)
+Theorem color_concat : forall bases t s1 s2,
+  parse_theme bases t (s1 ++ COMMA :: s2) =
+  match parse_theme bases t s1 with
+  | Ok (Good t1) => parse_theme bases t1 s2
+  | other => other
+  end.
+Proof. exact color_concat_proof. Qed.
+Print Assumptions color_concat.
+
+(* non-vacuity *)
+Example c17_color_nonvacuous :
+  let e := (true, [(b "fg", (C_UNDEFINED, A_NONE)); (b "hl", (C_UNDEFINED, A_NONE))]) in
+  let bases := [e; e; e; (false, snd e); e] in
+  parse_theme bases e (b "fg:bold:underline,FG:Regular:#ff0000:italic,hl:red:bold") =
+    Ok (Good (true, [(b "fg", (16777216 + 16711680, A_REGULAR + A_ITALIC)); (b "hl", (1, A_BOLD))])) /\
+  parse_theme bases e (b "fg:bold:regular") = Ok (Good (true, [(b "fg", (C_UNDEFINED, A_REGULAR)); (b "hl", (C_UNDEFINED, A_NONE))])) /\
+  parse_theme bases e (b "fg:bold,bw,hl:7") = Ok (Good (false, [(b "fg", (C_UNDEFINED, A_NONE)); (b "hl", (7, A_NONE))])) /\
+  parse_theme bases e (b "fg:256") = Ok (Bad E_COLOR) /\ parse_theme bases e (b "fg") = Ok (Bad E_COLOR) /\
+  entries_ok [[b "fg"; b "bold"; b "underline"]; [b "FG"; b "Regular"; b "#ff0000"; b "italic"]] = true /\
+  comps_of [b "regular"; b "#ff0000"; b "italic"] = Some [CRegular; CColor 33488896; CAttr A_ITALIC] /\
+  complete [CRegular; CColor 33488896; CAttr A_ITALIC] = true /\
+  leaves (b "fg") [b "hl"; b "red"] /\
+  color_opts bases e [(0, b "fg:bold"); (1, []); (0, b "hl:bold"); (0, [])] = Ok (Good e).
 Proof. cbn zeta. repeat split; vm_compute; reflexivity. Qed.
